@@ -531,16 +531,23 @@ fn part_cli(args: &Args, rep: &Reporter) -> J {
 /// exactly the root's definitions plus the reference closure, whichever way the host supplies the files the task
 /// asks for (all per round / one per round / asking twice before supplying one).
 fn part_loader(args: &Args, rep: &Reporter) -> J {
-    let f = Family { layout: 0, name: "loader:n3-lines<=2", n: 3, max_lines: 2, min_lines: 0, spells: vec![0], targets: vec![0, 1, 5], allow_missing: true, fragsets: vec![vec![0, 0, 0], vec![0, 1, 2], vec![2, 2, 0]] };
-    let alpha = line_alphabet(&f);
-    let a = alpha.len();
+    let fams = [
+        Family { layout: 0, name: "loader:n3-lines<=2", n: 3, max_lines: 2, min_lines: 0, spells: vec![0], targets: vec![0, 1, 5], allow_missing: true, fragsets: vec![vec![0, 0, 0], vec![0, 1, 2], vec![2, 2, 0]] },
+        // a file in the parent directory under the base name of a file beside the root: a chain through it must be
+        // resolved against the importing file's directory, not the root's
+        Family { layout: 1, name: "loader:n3-same-name-in-parent-dir-lines<=2", n: 3, max_lines: 2, min_lines: 1, spells: vec![0], targets: vec![0, 1], allow_missing: false, fragsets: vec![vec![0, 0, 0], vec![2, 1, 1]] },
+    ];
     let mut cases: Vec<Case> = vec![];
-    for len in f.min_lines..=f.max_lines {
-        for code in 0..a.pow(len as u32) {
-            let mut x = code;
-            let lines: Vec<Line> = (0..len).map(|_| { let l = alpha[x % a]; x /= a; l }).collect();
-            for fs in &f.fragsets {
-                cases.push(Case { n: f.n, frags: fs.clone(), lines: lines.clone(), layout: f.layout });
+    for f in &fams {
+        let alpha = line_alphabet(f);
+        let a = alpha.len();
+        for len in f.min_lines..=f.max_lines {
+            for code in 0..a.pow(len as u32) {
+                let mut x = code;
+                let lines: Vec<Line> = (0..len).map(|_| { let l = alpha[x % a]; x /= a; l }).collect();
+                for fs in &f.fragsets {
+                    cases.push(Case { n: f.n, frags: fs.clone(), lines: lines.clone(), layout: f.layout });
+                }
             }
         }
     }
@@ -592,7 +599,7 @@ fn part_loader(args: &Args, rep: &Reporter) -> J {
             }
         }
     });
-    json!({"family": f.name, "graphs": cases.len(), "supply_strategies": 3, "loader_runs": asked.load(Ordering::Relaxed), "modules_compared_with_the_reference_closure": emitted.load(Ordering::Relaxed)})
+    json!({"families": fams.iter().map(|f| f.name).collect::<Vec<_>>(), "graphs": cases.len(), "supply_strategies": 3, "loader_runs": asked.load(Ordering::Relaxed), "modules_compared_with_the_reference_closure": emitted.load(Ordering::Relaxed)})
 }
 
 fn inner(args: &Args) -> i32 {
